@@ -369,6 +369,50 @@ func runSeq(c Case) (vkit.Info, error) {
 			}
 			armed = 1 + mod(d.A, 3)
 			continue
+		case "plant":
+			if f.rsMode == rsOn || len(S0) == 0 {
+				cls.add("plant-not-applicable")
+				continue
+			}
+			e := S0[mod(d.I, len(S0))]
+			m := proto.Clone(e.ptr.GetMeta()).(*metapb.Region)
+			up, kind := uint64(1+mod(d.A/2, 3)), "version-up-confver-down"
+			if mod(d.A, 2) == 0 {
+				if m.RegionEpoch.ConfVer == 0 {
+					cls.add("plant-not-applicable")
+					continue
+				}
+				m.RegionEpoch.Version += up
+				m.RegionEpoch.ConfVer--
+			} else {
+				if m.RegionEpoch.Version == 0 {
+					cls.add("plant-not-applicable")
+					continue
+				}
+				m.RegionEpoch.ConfVer += up
+				m.RegionEpoch.Version--
+				kind = "confver-up-version-down"
+			}
+			if err := f.storage.SaveRegion(m); err != nil {
+				return info, fmt.Errorf("harness: step %d plant: %v", step, err)
+			}
+			f.fkv.ResetCounters()
+			f.fkv.TakeLog()
+			b, err := proto.Marshal(m)
+			if err != nil {
+				return info, err
+			}
+			M[regionKey(e.id)] = string(b)
+			lag[regionKey(e.id)] = "planted"
+			cls.add("plant-" + kind)
+			K1, err := f.kvDump()
+			if err != nil {
+				return info, fmt.Errorf("step %d after plant: %v", step, err)
+			}
+			if err := modelIs(M, K1, S0); err != nil {
+				return info, fmt.Errorf("harness: step %d after plant: %v", step, err)
+			}
+			continue
 		case "flush":
 			if err := f.storage.Flush(); err != nil {
 				return info, fmt.Errorf("step %d Storage.Flush: %v", step, err)
@@ -506,7 +550,7 @@ func runSeq(c Case) (vkit.Info, error) {
 		wantMeta := h.metaBytes()
 		why, witness := staleWhy(h, S0)
 		switch h.Kind {
-		case "uconf", "uterm", "uver", "uover":
+		case "uconf", "uterm", "uver", "uover", "vupcdn", "cupvdn":
 			if why == "" {
 				return info, fmt.Errorf("harness: fabricated %v is not stale against %v", h, S0)
 			}
